@@ -1184,7 +1184,16 @@ class EdgeQLSourceGenerator(codegen.SourceGenerator):
                 self._visit_CreateObject(
                     node, f'{node.branch_type} BRANCH', after_name=after_name)
         elif node.flavor == qltypes.SchemaObjectClass.DATABASE:
-            self._visit_CreateObject(node, 'DATABASE')
+            if node.template is not None:
+
+                def after_name() -> None:
+                    self._write_keywords(' FROM ')
+                    assert node.template
+                    self.visit(node.template)
+                self._visit_CreateObject(
+                    node, 'DATABASE', after_name=after_name)
+            else:
+                self._visit_CreateObject(node, 'DATABASE')
         else:
             raise EdgeQLSourceGeneratorError(
                 f'unknown branch command flavor: {node.flavor!r}'
